@@ -254,6 +254,23 @@ impl<Req, Resp, T> BaseChannel<Req, Resp, T> {
     }
 }
 
+impl<Req, Resp, T> BaseChannel<Req, Resp, T>
+where
+    T: Transport<Response<Resp>, ClientMessage<Req>>,
+{
+    /// Stops tracking requests whose handlers were dropped and requests whose deadlines have
+    /// passed (aborting the handlers of the latter), without reading from the transport.
+    fn retire_finished_requests(mut self: Pin<&mut Self>, cx: &mut Context) {
+        while let Poll::Ready(Some(request_id)) = self.canceled_requests_pin_mut().poll_recv(cx) {
+            if let Some(span) = self.in_flight_requests_mut().remove_request(request_id) {
+                let _entered = span.enter();
+                tracing::info!("ResponseCancelled");
+            }
+        }
+        while let Poll::Ready(Some(_)) = self.in_flight_requests_mut().poll_expired(cx) {}
+    }
+}
+
 impl<Req, Resp, T> fmt::Debug for BaseChannel<Req, Resp, T> {
     fn fmt(&self, f: &mut fmt::Formatter<'_>) -> fmt::Result {
         write!(f, "BaseChannel")
@@ -538,7 +555,11 @@ where
 {
     type Error = ChannelError<T::Error>;
 
-    fn poll_ready(self: Pin<&mut Self>, cx: &mut Context) -> Poll<Result<(), Self::Error>> {
+    fn poll_ready(mut self: Pin<&mut Self>, cx: &mut Context) -> Poll<Result<(), Self::Error>> {
+        // A wrapper that waits for write readiness before it polls the stream again (the
+        // request throttler does, while it is at its limit) would otherwise keep expired and
+        // abandoned requests alive for as long as the transport is not ready.
+        self.as_mut().retire_finished_requests(cx);
         self.project()
             .transport
             .poll_ready(cx)
